@@ -15,6 +15,7 @@ package client
 import (
 	"bytes"
 	"crypto/md5"
+	"encoding/json"
 	"errors"
 	"fmt"
 	"io"
@@ -107,7 +108,9 @@ type veEnv struct {
 	slowOpenAfterFail time.Duration
 	failedSeen        map[string]bool
 	freezeOnTxOf      string
+	recoveryOvercount int
 	asideSeq          int
+	jam               bool // the receiver refuses every request
 }
 
 func veMD5(b []byte) string { return fmt.Sprintf("%x", md5.Sum(b)) }
@@ -306,6 +309,10 @@ func (e *veEnv) transmit(p sts.Payload) (int, error) {
 		w := e.wire(part)
 		desc = append(desc, fmt.Sprintf("%s[%d:%d]", w.name, w.beg, w.end))
 	}
+	if e.jam {
+		f.kind = "unavail"
+		time.Sleep(5 * time.Millisecond)
+	}
 	e.ev("tx", f.kind, strings.Join(desc, " "))
 	if f.kind == "unavail" {
 		e.ev("txret", "err", "unavailable")
@@ -432,17 +439,69 @@ func (e *veEnv) ackHead(parts []sts.Binned, k int) {
 
 func (e *veEnv) txRecover(p sts.Payload) (int, error) {
 	parts := p.GetParts()
-	var binned []sts.Binned
-	for _, part := range parts {
-		binned = append(binned, e.wire(part))
-	}
 	if !e.st.Ready() {
 		return 0, errors.New("503")
 	}
+	// the data-recovery request as the HTTP layer makes it: the payload's real header, decoded by the
+	// real decoder; the gate keeper is asked about the DECODED part descriptors
+	var binned []sts.Binned
+	if hdr, err := p.EncodeHeader(); err == nil {
+		if dec, err := payload.NewDecoder(len(hdr), string(os.PathSeparator), bytes.NewReader(hdr)); err == nil {
+			binned = dec.GetParts()
+		}
+	}
+	if len(binned) != len(parts) {
+		binned = nil
+		for _, part := range parts {
+			binned = append(binned, e.wire(part))
+		}
+	}
 	n := e.st.Received(binned)
+	// what the answer counts as held must be on the receiver's record (or complete / put away)
+	for i := 0; i < n && i < len(parts); i++ {
+		w := e.wire(parts[i])
+		if !e.recordHas(w) {
+			e.mu.Lock()
+			e.recoveryOvercount++
+			e.mu.Unlock()
+			e.ev("overcount", w.name, fmt.Sprintf("[%d:%d) counted as held, not on record", w.beg, w.end))
+		}
+	}
 	e.ackHead(parts, n)
 	e.ev("txrec", "", fmt.Sprint(n))
 	return n, nil
+}
+
+// recordHas: is this part on the receiver's record - in the companion of that version, or is the
+// file complete (.full), held (.wait) or put away with that hash?
+func (e *veEnv) recordHas(w *veWire) bool {
+	for attempt := 0; attempt < 3; attempt++ {
+		if b, err := os.ReadFile(filepath.Join(e.stageDir, w.name+".cmp")); err == nil {
+			var c sts.Partial
+			if json.Unmarshal(b, &c) == nil && c.Hash == w.hash {
+				for _, r := range c.Parts {
+					if r.Beg <= w.beg && w.end <= r.End {
+						return true
+					}
+				}
+			}
+		}
+		for _, ext := range []string{".full", ".wait"} {
+			if b, err := os.ReadFile(filepath.Join(e.stageDir, w.name+ext)); err == nil && veMD5(b) == w.hash {
+				return true
+			}
+		}
+		for _, p := range []string{filepath.Join(e.finalDir, w.name), filepath.Join(e.finalDir, w.name+".lck")} {
+			if b, err := os.ReadFile(p); err == nil && veMD5(b) == w.hash {
+				return true
+			}
+		}
+		if e.rlog.WasReceived(w.name, w.hash, time.Now().Add(-24*time.Hour), time.Now().Add(time.Hour)) {
+			return true // delivered and logged (the consumer may have taken the file away)
+		}
+		time.Sleep(2 * time.Millisecond)
+	}
+	return false
 }
 
 type vePolled struct {
@@ -545,6 +604,8 @@ type veScenario struct {
 	reuse             bool   // after the first delivery a file is created anew under a used name
 	reuseFault        string // ... and the first request(s) carrying the new version are lost without a part count (data recovery)
 	reuseFaultN       int
+	stopAfterMs       int           // the stop request arrives this long after start (wall clock), whatever the sender is doing
+	jam               bool          // the receiver refuses every request, for the whole run
 	reuseCrash        bool          // ... and the sender dies when it is about to send the new version (then restarts)
 	mutate            string        // name of a file rewritten while queued
 	stopAfterTx       int           // stop at the k-th interface event counted from the first answer to a data request
@@ -641,7 +702,7 @@ func veRun(tmp string, sc veScenario) string {
 		crashed: make(chan bool, 1), block: make(chan bool),
 		faults: append([]veFault{}, sc.faults...), pollFault: append([]string{}, sc.pollFault...),
 		failHeadOf: sc.failHeadOf, failHeadN: sc.failHeadN, slowOpenAfterFail: sc.slowOpenAfterFail,
-		freezeAt: sc.crashAt, freezeAfterTx: sc.crashAfterTx, stopAt: sc.stopAt, stopAfterTx: sc.stopAfterTx, stopAtPoll: sc.stopAtPoll}
+		jam: sc.jam, freezeAt: sc.crashAt, freezeAfterTx: sc.crashAfterTx, stopAt: sc.stopAt, stopAfterTx: sc.stopAfterTx, stopAtPoll: sc.stopAtPoll}
 	for _, d := range []string{e.out, e.cacheDir, e.stageDir, e.finalDir} {
 		os.MkdirAll(d, 0o755)
 	}
@@ -781,6 +842,9 @@ func veRun(tmp string, sc veScenario) string {
 			case <-done:
 				return true, false
 			default:
+			}
+			if sc.stopAfterMs > 0 && time.Since(deadline.Add(-limit)) > time.Duration(sc.stopAfterMs)*time.Millisecond {
+				sendStop(sc.stopKind != "now")
 			}
 			// a queued file is rewritten once its first bytes went out
 			if sc.mutate != "" && !mutated {
@@ -1107,6 +1171,9 @@ func veRun(tmp string, sc veScenario) string {
 		return nil
 	})
 	facts["staged_left"] = fmt.Sprint(staged)
+	e.mu.Lock()
+	facts["recovery_overcount"] = fmt.Sprint(e.recoveryOvercount)
+	e.mu.Unlock()
 	if staged > 0 {
 		facts["staged_names"] = strings.Join(stagedNames, ",")
 	}
@@ -1203,6 +1270,20 @@ func veGen(r *gen.Rand, id string, profile string) veScenario {
 		if r.Chance(1, 3) {
 			sc.faults = append(sc.faults, veFault{kind: kinds[r.Intn(len(kinds))], at: r.Intn(2)})
 		}
+	case "stopjam":
+		// the receiver refuses every request for the whole run; more small files than the sender's
+		// channels hold, one payload each: after a second or two every stage of the pipeline is parked
+		// in a blocked hand-over to the next one - then comes an immediate stop
+		sc.files = nil
+		for i := 0; i < 14+r.Intn(12); i++ {
+			sc.files = append(sc.files, veFileSpec{name: fmt.Sprintf("jam.f%02d", i), size: 5 + r.Intn(30), seedb: byte(1 + r.Intn(200)), age: time.Duration(2+r.Intn(50)) * time.Second, eligible: true})
+		}
+		sc.threads = 1 + r.Intn(2)
+		sc.payload, sc.chunk = 24, 8
+		sc.jam = true
+		sc.stopKind = "now"
+		sc.stopAt = 100000
+		sc.stopAfterMs = 2600 + r.Intn(1500)
 	case "stopfail":
 		// a one-shot run (graceful stop right after start) in which every file fails validation and the
 		// verdicts arrive late: more failed verdicts than the retry channel holds, with nobody left to read it
